@@ -171,6 +171,28 @@ entry("C09", "slopes", file=F + "classify/slopes.rs", impl=r"impl<T,\s*U>\s+Filt
              dict(self=st(config=st(outputs=OUTS3), state=st(input=some(v("p")))), lhs=SL % "(Some p)", vars="o0 o1 o2 p x", script="intros. cbn. destruct (acmp A p x) as [[]|]; reflexivity.")],
       rhs="({self.state.input}, {ret})")
 
+# Peaks: both Filter impls and the decision table; prev slope and (slope path) the incoming slope are concrete enum values,
+# so every row of the 4 x 3 decision table is one lemma; on the value path the inner Slopes filter is the translated body
+# of Slopes::filter with outputs = Slope::classes()
+def EN(x): return ("enum", x)
+PREVS = [(NONE, "None"), (some(EN("Rising")), "(Some Rising)"), (some(EN("None")), "(Some Flat)"), (some(EN("Falling")), "(Some Falling)")]
+CURS = [(EN("Rising"), "Rising"), (EN("None"), "Flat"), (EN("Falling"), "Falling")]
+PK3 = "match pk with PMax => o0 | PNone => o1 | PMin => o2 end"
+SLOPES_CLASSES = ("array", [EN("Rising"), EN("None"), EN("Falling")])
+def peaks_self(inner, prev): return st(config=st(outputs=OUTS3), state=st(slopes=sub("slopes", config=st(outputs=SLOPES_CLASSES), state=st(input=inner)), slope=prev))
+entry("C09", "peaks_internal", cls="Peaks", file=F + "classify/peaks.rs", impl=r"impl<T,\s*U>\s+Peaks<T,\s*U>", fn="filter_internal", params={"slope": None}, imports="Model.Classify",
+      cases=[dict(self=peaks_self(NONE, p), params={"slope": c}, lhs="(%s, peak_of %s %s)" % (cc, pc, cc), vars="(o0 o1 o2 : T)",
+                  rhs="({ret.0}, match {ret.1} with 0%N => PMax | 1%N => PNone | _ => PMin end)") for p, pc in PREVS for c, cc in CURS], rhs="")
+entry("C09", "peaks_slopes", cls="Peaks", file=F + "classify/peaks.rs", impl=r"impl<U>\s+Filter<Slope>\s+for\s+Peaks<Slope,\s*U>", fn="filter", params={"slope": None}, imports="Model.Classify",
+      cases=[dict(self=peaks_self(i, p), params={"slope": c}, lhs="(let '(s', pk) := peaks_slope_step %s %s in ((Some %s, s'), %s))" % (pc, cc, cc, PK3), vars="(o0 o1 o2 : T)")
+             for p, pc in PREVS for c, cc in CURS for i in (NONE, some(EN("Falling")))],
+      rhs="(({self.state.slopes.state.input}, {self.state.slope}), {ret})")
+entry("C09", "peaks_values", cls="Peaks", file=F + "classify/peaks.rs", impl=r"impl<T,\s*U>\s+Filter<T>\s+for\s+Peaks<T,\s*U>", fn="filter", params={"input": v("x")}, imports="Model.Classify", subs=["slopes"],
+      cases=[dict(self=peaks_self(NONE, p), lhs="(let '(s', pk) := peaks_step (acmp A) (None, %s) x in (s', %s))" % (pc, PK3), vars="o0 o1 o2 x") for p, pc in PREVS] +
+            [dict(self=peaks_self(some(v("p")), p), lhs="(let '(s', pk) := peaks_step (acmp A) (Some p, %s) x in (s', %s))" % (pc, PK3), vars="o0 o1 o2 p x",
+                  script="intros. cbn. destruct (acmp A p x) as [[]|]; reflexivity.") for p, pc in PREVS],
+      rhs="(({self.state.slopes.state.input}, {self.state.slope}), {ret})")
+
 # ---- C05 / C07 -----------------------------------------------------------------------------------------
 def L(name): return ("L", name)
 def conv_self(coeffs="coeffs", taps="taps", e="e"): return st(config=st(coefficients=L(coeffs)), state=st(taps=ring(taps, some(v(e)), taps + "'")))
@@ -233,6 +255,72 @@ entry("C11", "sink_mean_variance_finalize", file=S + "mean_variance.rs", impl=r"
              dict(self=st(state=some(st(count=v("c"), mean=v("m"), variance=v("vr")))), lhs="g_smv_fin A (Some (c, m, vr))", vars="c m vr")],
       rhs="(Some ({ret.?.mean}, {ret.?.variance}))")
 
+# the remaining sinks: bounds, statistics, last, collect, the `sink` wrappers and every finalize
+def smin_obj(m): return sub("SinkMin", min=m)
+def smax_obj(m): return sub("SinkMax", max=m)
+def smv_obj(s): return sub("SinkMV", state=s)
+for e_ in ENTRIES["C11"]:
+    e_["cls"] = {"sink_sum": "SinkSum", "sink_min": "SinkMin", "sink_max": "SinkMax", "sink_mean": "SinkMean", "sink_mean_variance": "SinkMV",
+                 "sink_mean_variance_finalize": "SinkMV"}[e_["name"]]
+OPT2 = [(NONE, "None", ""), (some(v("lo")), "(Some lo)", "lo ")]
+OPT2b = [(NONE, "None", ""), (some(v("hi")), "(Some hi)", "hi ")]
+MVS = [(NONE, "None", ""), (some(st(count=v("c"), mean=v("m"), variance=v("vr"))), "(Some (c, m, vr))", "c m vr ")]
+def sb_self(a, b): return st(min=smin_obj(a), max=smax_obj(b))
+entry("C11", "sink_bounds", cls="SinkBounds", file=S + "bounds.rs", impl=r"impl<T>\s+Filter<T>\s+for\s+Bounds<T>", fn="filter", params={"input": v("x")}, subs=["SinkMin", "SinkMax"],
+      cases=[dict(self=sb_self(a, b), lhs="g_sbounds_step A (%s, %s) x" % (ac, bc), vars=av + bv + "x") for a, ac, av in OPT2 for b, bc, bv in OPT2b],
+      rhs="(({self.min.min}, {self.max.max}), ({ret.min}, {ret.max}))")
+entry("C11", "sink_bounds_sink", cls="SinkBounds", file=S + "bounds.rs", impl=r"impl<T>\s+Sink<T>\s+for\s+Bounds<T>", fn="sink", params={"input": v("x")}, subs=["SinkMin", "SinkMax"],
+      cases=[dict(self=sb_self(a, b), lhs="fst (g_sbounds_step A (%s, %s) x)" % (ac, bc), vars=av + bv + "x") for a, ac, av in OPT2 for b, bc, bv in OPT2b],
+      rhs="({self.min.min}, {self.max.max})")
+entry("C11", "sink_bounds_finalize", cls="SinkBounds", file=S + "bounds.rs", impl=r"impl<T>\s+Finalize\s+for\s+Bounds<T>", fn="finalize", params={}, subs=["SinkMin", "SinkMax"],
+      cases=[dict(self=sb_self(NONE, NONE), lhs="@g_sbounds_fin T (None, None)", vars="", rhs="None"),
+             dict(self=sb_self(some(v("lo")), some(v("hi"))), lhs="g_sbounds_fin (Some lo, Some hi)", vars="lo hi")],
+      rhs="(Some ({ret.?.min}, {ret.?.max}))")
+def stat_self(a, b, m): return st(state=st(bounds=sub("SinkBounds", min=smin_obj(a), max=smax_obj(b)), mean_variance=smv_obj(m)))
+entry("C11", "sink_statistics", cls="SinkStat", file=S + "statistics.rs", impl=r"impl<T>\s+Filter<T>\s+for\s+Statistics<T>", fn="filter", params={"input": v("x")},
+      subs=["SinkMin", "SinkMax", "SinkBounds", "SinkMV"],
+      cases=[dict(self=stat_self(a, b, m), lhs="g_stat_step A ((%s, %s), %s) x" % (ac, bc, mc), vars=av + bv + mv_ + "x") for a, ac, av in OPT2 for b, bc, bv in OPT2b for m, mc, mv_ in MVS],
+      rhs="((({self.state.bounds.min.min}, {self.state.bounds.max.max}), Some ({self.state.mean_variance.state.?.count}, {self.state.mean_variance.state.?.mean}, {self.state.mean_variance.state.?.variance})), ({ret.min}, {ret.max}, {ret.mean}, {ret.variance}))")
+entry("C11", "sink_statistics_sink", cls="SinkStat", file=S + "statistics.rs", impl=r"impl<T>\s+Sink<T>\s+for\s+Statistics<T>", fn="sink", params={"input": v("x")},
+      subs=["SinkMin", "SinkMax", "SinkBounds", "SinkMV"],
+      cases=[dict(self=stat_self(a, b, m), lhs="fst (g_stat_step A ((%s, %s), %s) x)" % (ac, bc, mc), vars=av + bv + mv_ + "x") for a, ac, av in OPT2 for b, bc, bv in OPT2b for m, mc, mv_ in MVS],
+      rhs="(({self.state.bounds.min.min}, {self.state.bounds.max.max}), Some ({self.state.mean_variance.state.?.count}, {self.state.mean_variance.state.?.mean}, {self.state.mean_variance.state.?.variance}))")
+entry("C11", "sink_statistics_finalize", cls="SinkStat", file=S + "statistics.rs", impl=r"impl<T>\s+Finalize\s+for\s+Statistics<T>", fn="finalize", params={},
+      subs=["SinkMin", "SinkMax", "SinkBounds", "SinkMV"],
+      cases=[dict(self=stat_self(NONE, NONE, NONE), lhs="g_stat_fin A ((None, None), None)", vars="", rhs="None"),
+             dict(self=stat_self(some(v("lo")), some(v("hi")), MVS[1][0]), lhs="g_stat_fin A ((Some lo, Some hi), Some (c, m, vr))", vars="lo hi c m vr")],
+      rhs="(Some ({ret.?.min}, {ret.?.max}, {ret.?.mean}, {ret.?.variance}))")
+for nm, cls_, f_, fld in (("sum", "SinkSum", "integrate.rs", "sum"), ("min", "SinkMin", "min.rs", "min"), ("max", "SinkMax", "max.rs", "max")):
+    ty = {"sum": "Integrate", "min": "Min", "max": "Max"}[nm]
+    entry("C11", "sink_%s_sink" % nm, cls=cls_, file=S + f_, impl=r"impl<T>\s+Sink<T>\s+for\s+%s<T>" % ty, fn="sink", params={"input": v("x")},
+          cases=[dict(self=st(**{fld: NONE}), lhs="fst (g_s%s_step A None x)" % nm if nm != "sum" else "fst (g_sum_step A None x)", vars="x"),
+                 dict(self=st(**{fld: some(v("s"))}), lhs="fst (g_s%s_step A (Some s) x)" % nm if nm != "sum" else "fst (g_sum_step A (Some s) x)", vars="s x")],
+          rhs="{self.%s}" % fld)
+    entry("C11", "sink_%s_finalize" % nm, cls=cls_, file=S + f_, impl=r"impl<T>\s+Finalize\s+for\s+%s<T>" % ty, fn="finalize", params={},
+          cases=[dict(self=st(**{fld: NONE}), lhs="@None T", vars=""), dict(self=st(**{fld: some(v("s"))}), lhs="Some s", vars="s")], rhs="{ret}")
+entry("C11", "sink_mean_sink", cls="SinkMean", file=S + "mean.rs", impl=r"impl<T>\s+Sink<T>\s+for\s+Mean<T>", fn="sink", params={"input": v("x")},
+      cases=[dict(self=st(state=NONE), lhs="fst (g_smean_step A None x)", vars="x"),
+             dict(self=st(state=some(st(count=v("c"), mean=v("m")))), lhs="fst (g_smean_step A (Some (c, m)) x)", vars="c m x")],
+      rhs="Some ({self.state.?.count}, {self.state.?.mean})")
+entry("C11", "sink_mean_finalize", cls="SinkMean", file=S + "mean.rs", impl=r"impl<T>\s+Finalize\s+for\s+Mean<T>", fn="finalize", params={},
+      cases=[dict(self=st(state=NONE), lhs="@g_smean_fin T None", vars=""),
+             dict(self=st(state=some(st(count=v("c"), mean=v("m")))), lhs="g_smean_fin (Some (c, m))", vars="c m")],
+      rhs="{ret}")
+entry("C11", "sink_mean_variance_sink", cls="SinkMV", file=S + "mean_variance.rs", impl=r"impl<T>\s+Sink<T>\s+for\s+MeanVariance<T>", fn="sink", params={"input": v("x")},
+      cases=[dict(self=st(state=NONE), lhs="fst (g_smv_step A None x)", vars="x"),
+             dict(self=st(state=some(st(count=v("c"), mean=v("m"), variance=v("vr")))), lhs="fst (g_smv_step A (Some (c, m, vr)) x)", vars="c m vr x")],
+      rhs="Some ({self.state.?.count}, {self.state.?.mean}, {self.state.?.variance})")
+entry("C11", "sink_last", cls="SinkLast", file=S + "last.rs", impl=r"impl<T>\s+Sink<T>\s+for\s+Last<T>", fn="sink", params={"input": v("x")},
+      cases=[dict(self=st(state=NONE), lhs="g_last_sink None x", vars="x"), dict(self=st(state=some(v("s"))), lhs="g_last_sink (Some s) x", vars="s x")], rhs="{self.state}")
+entry("C11", "sink_last_finalize", cls="SinkLast", file=S + "last.rs", impl=r"impl<T>\s+Finalize\s+for\s+Last<T>", fn="finalize", params={},
+      cases=[dict(self=st(state=NONE), lhs="@None T", vars=""), dict(self=st(state=some(v("s"))), lhs="Some s", vars="s")], rhs="{ret}")
+entry("C11", "sink_collect", cls="SinkCollect", file=S + "collect.rs", impl=r"impl<T>\s+Filter<T>\s+for\s+Collect<Vec<T>>", fn="filter", params={"input": v("x")},
+      cases=[dict(self=st(collected=L("l")), lhs="g_collect_step l x", vars="(l : list T) (x : T)")], rhs="({self.collected}, {ret})")
+entry("C11", "sink_collect_sink", cls="SinkCollect", file=S + "collect.rs", impl=r"impl<T>\s+Sink<T>\s+for\s+Collect<Vec<T>>", fn="sink", params={"input": v("x")},
+      cases=[dict(self=st(collected=L("l")), lhs="fst (g_collect_step l x)", vars="(l : list T) (x : T)")], rhs="{self.collected}")
+entry("C11", "sink_collect_finalize", cls="SinkCollect", file=S + "collect.rs", impl=r"impl<U>\s+Finalize\s+for\s+Collect<U>", fn="finalize", params={},
+      cases=[dict(self=st(collected=L("l")), lhs="l", vars="(l : list T)")], rhs="{ret}")
+
 # ---- C08 -----------------------------------------------------------------------------------------------
 OUTS2 = ("array", [v("o0"), v("o1")])
 entry("C08", "threshold", file=F + "classify/threshold.rs", impl=r"impl<T,\s*U>\s+Filter<T>\s+for\s+Threshold<T,\s*U>", fn="filter",
@@ -250,6 +338,70 @@ entry("C08", "debounce", file=F + "classify/debounce.rs", impl=r"impl<T,\s*U>\s+
       rhs="({self.state.count}, {ret})", imports="Model.Classify Model.Bounds")
 
 
+# ---- C01 -----------------------------------------------------------------------------------------------
+# Pipe / UnitPipe: the inner stages are ABSTRACT pipes of the model (any tree); every call into one is a hypothesis
+# `pfilter .. w l x = (w1, l', y1)` of the generated lemma, with the world threaded in evaluation order, so the lemma
+# says: whatever the stages do, the body of Pipe::filter composes them exactly as Model/Pipes.v does.
+PP = REPO + "/crates/pipes/src/"
+PIPE_HDR = ("forall (Id S X R W : Type) (fstep : Id -> W -> S -> X -> W * S * X) (sstep : Id -> W -> S -> W * S * option X) "
+            "(kstep : Id -> W -> S -> X -> W * S) (fin : Id -> S -> R)")
+PIPE_SCRIPT = "intros. cbn. repeat (match goal with H : _ = _ |- _ => rewrite H; clear H; cbn end). reflexivity."
+def pipe(name): return ("obj", "pipe", name)
+def _stage_call(sym, obj, fn, args, outs):
+    """record `fn w obj args = (w', obj', outs...)` as a hypothesis; returns the new object"""
+    k = sym.fresh(); w1 = "w%d" % k; n1 = "%s'" % obj[2]
+    sym.dyn_vars += [(w1, "W"), (n1, "pipe Id S")]
+    sym.dyn_hyps.append("%s %s %s%s = (%s, %s%s)" % (fn, sym.world, obj[2], "".join(" " + a for a in args), w1, n1, "".join(", " + o for o in outs)))
+    sym.world = w1
+    return pipe(n1)
+def prim_pfilter(sym, obj, args):
+    from rs2coq import coq_V
+    y = "y%d" % (sym.counter + 1); sym.dyn_vars.append((y, "X"))
+    return T(("var", y)), _stage_call(sym, obj, "pfilter Id S X W fstep", [coq_V(args[0])], [y])
+def prim_psource(sym, obj, args):
+    some = sym.case["source_some"]
+    y = "y%d" % (sym.counter + 1)
+    if some: sym.dyn_vars.append((y, "X"))
+    return (("opt", T(("var", y))) if some else ("opt", None)), _stage_call(sym, obj, "psource Id S X W fstep sstep", [], ["Some " + y if some else "None"])
+def prim_psink(sym, obj, args):
+    from rs2coq import coq_V
+    return ("unit",), _stage_call(sym, obj, "psink Id S X W fstep kstep", [coq_V(args[0])], [])
+def prim_pfinalize(sym, obj, args):
+    return ("raw", "(pfinalize Id S R fin %s)" % obj[2]), None
+PIPE = {("pipe", "filter"): prim_pfilter, ("pipe", "source"): prim_psource, ("pipe", "sink"): prim_psink, ("pipe", "finalize"): prim_pfinalize}
+PIPE_NEW = {"Pipe::new": (PP + "pipe.rs", r"impl<T,\s*U>\s+Pipe<T,\s*U>", "new", ["lhs", "rhs"])}
+def pipe_entry(name, file, impl, fn, selfv, lhs, rhs, vars, params=None, cases=None, **kw):
+    entry("C01", name, file=file, impl=impl, fn=fn, params=params or {}, header=PIPE_HDR, script=PIPE_SCRIPT, imports="Model.Pipes", world="w", prims=PIPE,
+          cases=cases or [dict(self=selfv, lhs=lhs, vars=vars)], rhs=rhs, **kw)
+LR = st(lhs=pipe("l"), rhs=pipe("r"))
+pipe_entry("pipe_filter", PP + "pipe.rs", r"impl<T,\s*U,\s*I>\s+Filter<I>\s+for\s+Pipe<T,\s*U>", "filter", LR, "pfilter Id S X W fstep w (Pipe l r) x",
+           "({world}, Pipe {self.lhs} {self.rhs}, {ret})", "(w : W) (l r : pipe Id S) (x : X)", params={"input": v("x")})
+pipe_entry("pipe_source", PP + "pipe.rs", r"impl<T,\s*U>\s+Source\s+for\s+Pipe<T,\s*U>", "source", LR, None,
+           "({world}, Pipe {self.lhs} {self.rhs}, {ret})", None,
+           cases=[dict(self=LR, lhs="psource Id S X W fstep sstep w (Pipe l r)", vars="(w : W) (l r : pipe Id S)", source_some=True),
+                  dict(self=LR, lhs="psource Id S X W fstep sstep w (Pipe l r)", vars="(w : W) (l r : pipe Id S)", source_some=False)])
+pipe_entry("pipe_sink", PP + "pipe.rs", r"impl<T,\s*U,\s*I>\s+Sink<I>\s+for\s+Pipe<T,\s*U>", "sink", LR, "psink Id S X W fstep kstep w (Pipe l r) x",
+           "({world}, Pipe {self.lhs} {self.rhs})", "(w : W) (l r : pipe Id S) (x : X)", params={"input": v("x")})
+pipe_entry("pipe_finalize", PP + "pipe.rs", r"impl<T,\s*U>\s+Finalize\s+for\s+Pipe<T,\s*U>", "finalize", LR, "pfinalize Id S R fin (Pipe l r)",
+           "{ret}", "(l r : pipe Id S)")
+pipe_entry("pipe_new", PP + "pipe.rs", r"impl<T,\s*U>\s+Pipe<T,\s*U>", "new", ("unit",), "Pipe a b", "Pipe {ret.lhs} {ret.rhs}", "(a b : pipe Id S)",
+           params={"lhs": pipe("a"), "rhs": pipe("b")})
+pipe_entry("pipe_bitor", PP + "pipe.rs", r"impl<T,\s*U,\s*Rhs>\s+BitOr<Rhs>\s+for\s+Pipe<T,\s*U>", "bitor", pipe("a"), "bitor Id S a b", "Pipe {ret.lhs} {ret.rhs}",
+           "(a b : pipe Id S)", params={"rhs": pipe("b")}, fns=PIPE_NEW)
+IN = st(inner=pipe("q"))
+pipe_entry("unit_filter", PP + "unit_pipe.rs", r"impl<T,\s*I>\s+Filter<I>\s+for\s+UnitPipe<T>", "filter", IN, "pfilter Id S X W fstep w (Unit q) x",
+           "({world}, Unit {self.inner}, {ret})", "(w : W) (q : pipe Id S) (x : X)", params={"input": v("x")})
+pipe_entry("unit_source", PP + "unit_pipe.rs", r"impl<T>\s+Source\s+for\s+UnitPipe<T>", "source", IN, None, "({world}, Unit {self.inner}, {ret})", None,
+           cases=[dict(self=IN, lhs="psource Id S X W fstep sstep w (Unit q)", vars="(w : W) (q : pipe Id S)", source_some=True),
+                  dict(self=IN, lhs="psource Id S X W fstep sstep w (Unit q)", vars="(w : W) (q : pipe Id S)", source_some=False)])
+pipe_entry("unit_sink", PP + "unit_pipe.rs", r"impl<T,\s*I>\s+Sink<I>\s+for\s+UnitPipe<T>", "sink", IN, "psink Id S X W fstep kstep w (Unit q) x",
+           "({world}, Unit {self.inner})", "(w : W) (q : pipe Id S) (x : X)", params={"input": v("x")})
+pipe_entry("unit_finalize", PP + "unit_pipe.rs", r"impl<T>\s+Finalize\s+for\s+UnitPipe<T>", "finalize", IN, "pfinalize Id S R fin (Unit q)", "{ret}", "(q : pipe Id S)")
+pipe_entry("unit_new", PP + "unit_pipe.rs", r"impl<T>\s+UnitPipe<T>", "new", ("unit",), "Unit q", "Unit {ret.inner}", "(q : pipe Id S)", params={"inner": pipe("q")})
+pipe_entry("unit_bitor", PP + "unit_pipe.rs", r"impl<T,\s*Rhs>\s+BitOr<Rhs>\s+for\s+UnitPipe<T>", "bitor", pipe("a"), "bitor Id S a b", "Pipe {ret.lhs} {ret.rhs}",
+           "(a b : pipe Id S)", params={"rhs": pipe("b")}, fns=PIPE_NEW)
+
+
 # ---- constants compiled into macro invocations ---------------------------------------------------------
 CONSTS = {"C18": [dict(name="hampel_factor", file=F + "hampel.rs", regex=r"impl_hampel_filter!\(\s*(f32|f64)\s*=>\s*([0-9][0-9_]*\.[0-9_]*)\s*\)", expect=2,
                        lemma="From Coq Require Import QArith Qcanon.\nFrom Signalo Require Import Model.Hampel.\nLemma hampel_factor_%(k)s : Q2Qc (%(q)s) = mad_factor.\nProof. apply Qc_is_canon. reflexivity. Qed.\n")]}
@@ -259,15 +411,28 @@ CONSTS = {"C18": [dict(name="hampel_factor", file=F + "hampel.rs", regex=r"impl_
 def run_case(ent, case, body_ast, params_txt):
     subs = {}
     for sname in ent.get("subs", []):
-        se = next(e for es in ENTRIES.values() for e in es if e["name"] == sname)
-        sbody, _ = find_method(open(se["file"]).read(), se["impl"], se["fn"])
-        subs[sname] = (parse_body(sbody), list(se["params"].keys()))
+        for se in (e for es in ENTRIES.values() for e in es if e["name"] == sname or e.get("cls") == sname):
+            sbody, _ = find_method(open(se["file"]).read(), se["impl"], se["fn"])
+            if se["name"] == sname: subs[sname] = (parse_body(sbody), list(se["params"].keys()))
+            if se.get("cls") == sname: subs[(sname, se["fn"])] = (parse_body(sbody), list(se["params"].keys()))
+    if ent.get("cls"):      # calls of the receiver's own (translated) methods
+        for se in (e for es in ENTRIES.values() for e in es if e.get("cls") == ent["cls"] and e["name"] != ent["name"]):
+            sbody, _ = find_method(open(se["file"]).read(), se["impl"], se["fn"])
+            subs[(ent["cls"], se["fn"])] = (parse_body(sbody), list(se["params"].keys()))
     prims = dict(ent.get("prims") or {}); prims.update(case.get("prims") or {})
     sym = Sym(prims=prims, divmode=ent.get("divmode", "total"), subs=subs)
+    for fname, (ffile, fimpl, ffn, fparams) in (ent.get("fns") or {}).items():
+        fbody, _ = find_method(open(ffile).read(), fimpl, ffn)
+        sym.fns[fname] = (parse_body(fbody), fparams)
+    sym.world = ent.get("world")
+    sym.case = case
     env = Env()
-    env.vars["self"] = case["self"]
+    selfv = case["self"]
+    if ent.get("cls") and selfv[0] == "struct" and "__sub" not in selfv[1]:
+        d = dict(selfv[1]); d["__sub"] = ("mark", ent["cls"]); selfv = ("struct", d)
+    env.vars["self"] = selfv
     for name, val in ent["params"].items():
-        env.vars[name] = val
+        env.vars[name] = (case.get("params") or {}).get(name, val)
     from rs2coq import Return
     try:
         ret = sym.block(body_ast, env)
@@ -283,13 +448,16 @@ def opt_path(vv, path):
         if f == "?":
             if vv[0] != "opt" or vv[1] is None: raise Unsupported("expected Some(_) in the result")
             vv = vv[1]
+        elif f.isdigit() and vv[0] == "tuple":
+            vv = vv[1][int(f)]
         else:
             vv = lookup(vv, [f])
     return vv
 
 
-def fill2(template, selfv, ret):
+def fill2(template, selfv, ret, sym=None):
     from rs2coq import coq_V
+    if sym is not None and sym.world is not None: template = template.replace("{world}", sym.world)
     def rep(m):
         parts = m.group(1).split(".")
         base = ret if parts[0] == "ret" else selfv
@@ -307,13 +475,14 @@ def binders(vs):
 
 
 def lemma_text(ent, idx, case, sym, selfv, ret):
-    rhs = fill2(case.get("rhs", ent["rhs"]), selfv, ret)
-    binder = "forall (T : Type) (A : arith T)%s, " % binders(case["vars"])
+    rhs = fill2(case.get("rhs", ent["rhs"]), selfv, ret, sym)
+    dyn = "".join(" (%s : %s)" % nv for nv in sym.dyn_vars)
+    binder = "%s%s%s, " % (ent.get("header", "forall (T : Type) (A : arith T)"), binders(case["vars"]), dyn)
     name = "%s_case%d" % (ent["name"], idx)
     head = case["lhs"].split()[0].lstrip("@")
     from rs2coq import coq_V
     pushed = getattr(sym, "pushed", [])
-    hyps = [h.replace("{pushed1}", coq_V(pushed[1]) if len(pushed) > 1 else "?") for h in case.get("hyps", [])]
+    hyps = [h.replace("{pushed1}", coq_V(pushed[1]) if len(pushed) > 1 else "?") for h in case.get("hyps", [])] + list(sym.dyn_hyps)
     prem = "".join("%s -> " % h for h in hyps)
     script = ("intros. unfold %s%s. cbn [fst snd obind]. repeat (match goal with H : _ = _ |- _ => rewrite H; clear H; cbn [fst snd obind] end). reflexivity."
               % (", ".join([head] + ent.get("unfold", [])), ", acdiv" if ent.get("divmode") == "checked" else ""))
@@ -325,6 +494,8 @@ def lemma_text(ent, idx, case, sym, selfv, ret):
             pre = "".join("adivz A %s = false -> " % coq_T(e) for e in sym.divs[:k])
             out.append("Lemma %s_div%d_panics : %s%s%sadivz A %s = true -> %s = None.\nProof. %s Qed.\n" % (name, k, binder, prem, pre, coq_T(d), case["lhs"], script))
         return "".join(out), 1 + len(sym.divs)
+    if ent.get("script") and not case.get("script"):
+        return "Lemma %s : %s%s%s = %s.\nProof. %s Qed.\n" % (name, binder, prem, case["lhs"], rhs, ent["script"]), 1
     if case.get("script"):
         return "Lemma %s : %s%s%s = %s.\nProof. %s Qed.\n" % (name, binder, prem, case["lhs"], rhs, case["script"]), 1
     if hyps:
@@ -345,7 +516,7 @@ def translate_entry(ent):
             raise Unsupported("parameter `%s` not found in the signature (%s)" % (pname, " ".join(params_txt.split())))
     ast = parse_body(body_txt)
     text = ["(* generated by translator/bodies.py from %s (%s::%s) -- do not edit *)\n" % (ent["file"], ent["impl"], ent["fn"]),
-            "From Coq Require Import NArith.\nFrom Signalo Require Import Base.Arith Base.Opt Base.Machine Model.Generic %s.\n" % ent.get("imports", "")]
+            "From Coq Require Import NArith List.\nImport ListNotations.\nFrom Signalo Require Import Base.Arith Base.Opt Base.Machine Model.Generic %s.\n" % ent.get("imports", "")]
     count = 0
     for i, case in enumerate(ent["cases"]):
         sym, selfv, ret = run_case(ent, case, ast, params_txt)
